@@ -351,19 +351,29 @@ def _ordered(cfg, texts):
 def _visuals(run, ix, ef):
     cv = ix.cls("trimesh.visual.color.ColorVisuals")
     tv = ix.cls("trimesh.visual.texture.TextureVisuals")
-    f = cv.methods["update_faces"]
-    txt = ast.unparse(f.node)
-    ok = "self._update_key(mask, 'face_colors')" in txt or "_update_key(mask, 'face_colors')" in txt
-    run.instance("R3", f.where, "ColorVisuals.update_faces slices face_colors with the mask", ok)
-    if not ok:
-        run.violation("R3", f.where, "ColorVisuals.update_faces does not slice face colours with the mask", key=key_of("C07-R3", "color-faces"))
-    f = cv.methods["update_vertices"]
-    txt = ast.unparse(f.node)
-    ok = "self._update_key(mask, 'vertex_colors')" in txt
-    run.instance("R3", f.where, "ColorVisuals.update_vertices slices vertex_colors with the mask", ok)
-    if not ok:
-        run.violation("R3", f.where, "ColorVisuals.update_vertices does not slice vertex colours with the mask", key=key_of("C07-R3", "color-vertices"))
-    uk = cv.methods["_update_key"]
+    # the helper both update_faces and update_vertices hand their mask to (`_update_key` today), by role
+    def _callee_names(fn):
+        return {c_.func.attr for c_ in ast.walk(fn.node) if isinstance(c_, ast.Call) and isinstance(c_.func, ast.Attribute) and ast.unparse(c_.func.value) == "self"}
+    shared = (_callee_names(cv.methods["update_faces"]) & _callee_names(cv.methods["update_vertices"])) & set(cv.methods)
+    uk_name = "_update_key" if "_update_key" in cv.methods else (next(iter(shared)) if len(shared) == 1 else None)
+    if uk_name is None:
+        raise AnalysisError("anchor vanished: the helper ColorVisuals.update_faces / update_vertices hand their mask to")
+    uk = cv.methods[uk_name]
+    # each funnel hands its own mask and the key of the per-element colours to that helper (keyword or positional)
+    for fname, ckey, what, vkey in (("update_faces", "face_colors", "face", "color-faces"), ("update_vertices", "vertex_colors", "vertex", "color-vertices")):
+        f = cv.methods[fname]
+        mask_p = f.params[1]
+        ok = False
+        for c_ in ast.walk(f.node):
+            if isinstance(c_, ast.Call) and isinstance(c_.func, ast.Attribute) and c_.func.attr == uk_name and ast.unparse(c_.func.value) == "self":
+                argv = [ast.unparse(a_) for a_ in c_.args] + [ast.unparse(k_.value) for k_ in c_.keywords]
+                ok = ok or (mask_p in argv and repr(ckey) in argv)
+            # or slices the stored colours itself
+        direct = any(isinstance(st_, ast.Assign) and ckey in ast.unparse(st_.targets[0]) and f"[{mask_p}]" in ast.unparse(st_.value) for st_ in ast.walk(f.node))
+        ok = ok or direct
+        run.instance("R3", f.where, f"ColorVisuals.{fname} slices {ckey} with the mask", ok)
+        if not ok:
+            run.violation("R3", f.where, f"ColorVisuals.{fname} does not slice {what} colours with the mask", key=key_of("C07-R3", vkey))
     txt = ast.unparse(uk.node)
     ok = "self._data[key] = self._data[key][mask]" in txt or "self._data[key][mask]" in txt
     run.instance("R3", uk.where, "_update_key stores data[key][mask]", ok)
